@@ -821,7 +821,8 @@ def run(ctx):
              "recorded model inputs/outputs replayed against the reference automaton (states = distinct prev_output "
              "vectors reached, transitions = per-path steps; non-trivial = steps entered with a non-zero state). "
              "hedge_ops: BFS to a fixpoint over call histories on one hedger (abstract state = shape/dtype of the "
-             "stale prev_output). branches: every state-independent model x world evaluated through both branches "
+             "stale prev_output). Worlds include derivatives whose own maturity is shorter / longer than the registered "
+             "time grid (shared underlier) and a short-dated listed hedge. branches: every state-independent model x world evaluated through both branches "
              "and the reference loop (non-trivial = paths on which the position changes over time)")
     ctx.assume("the model is deterministic and row-wise; the hedger, not the model, is under test")
     ctx.assume("values of the 'empty' feature are never compared (uninitialised memory); it is only fed to Naked")
@@ -947,6 +948,32 @@ def run(ctx):
             if hw.model_ok(m, w):
                 bblocks.append({"world": w, "model": m})
         fblocks.append({"world": dict(w, hedge="default"), "features": feature_specs(A, None)})
+    # the derivative's own maturity is NOT the registered grid: the underlier is shared with a derivative of
+    # another maturity / was simulated for another horizon (maturity shorter: mat_k < T-1, longer: mat_k > T-1),
+    # and the Hedger docstring's setting: a longer-dated derivative hedged with a short-dated listed option
+    for ul, kind, mat_k in itertools.product(
+            ("brownian", "heston"), market.OPTION_KINDS if ctx.thorough else ("european", "lookback"),
+            (max(1, T - 3), T + 1)):
+        w = {"ul": ul, "kind": kind, "call": True, "T": T, "As": A if ul == "brownian" or ctx.thorough else As,
+             "Av": Av["variance"] if ul == "heston" else None, "dtype": "float64", "hedge": "default",
+             "cost": 1 / 128, "mat_k": mat_k}
+        fblocks.append({"world": w, "features": feature_specs(w["As"], None)})
+        for m in loop_models(1):
+            if hw.model_ok(m, w):
+                lblocks.append({"world": w, "model": m})
+        for m in branch_models(None):
+            if hw.model_ok(m, w) and not m.get("view") and m["model"] in ("linear", "bs", "mlp"):
+                bblocks.append({"world": w, "model": m})
+    for ul, kind in itertools.product(("brownian", "heston"), ("lookback", "european")):
+        w = {"ul": ul, "kind": kind, "call": True, "T": T, "As": A if ul == "brownian" or ctx.thorough else As,
+             "Av": Av["variance"] if ul == "heston" else None, "dtype": "float64", "hedge": "ul+listed_short",
+             "cost": 1 / 128}
+        for m in loop_models(2):
+            if hw.model_ok(m, w):
+                lblocks.append({"world": w, "model": m})
+        for m in branch_models(None)[:4]:
+            if hw.model_ok(m, w):
+                bblocks.append({"world": w, "model": m})
     # ---- (i') re-simulation histories on one derivative object
     rblocks = []
     for ul, kind, listed, dtype in itertools.product(
